@@ -43,13 +43,10 @@ func runC03(c *kit.Ctx) {
 	c03CRC(c, r1)
 	for _, w := range m.writers {
 		wl := newWriterLoop(c, m, w)
-		if wl.delta == nil {
-			c.Fatalf("%s: no hash delta accumulated in the merge loop", w.F.Name)
-		}
 		for _, v := range mergeValuations(w.Table == "edge_points") {
 			out := wl.run(v)
 			c.AddValuations(1)
-			o := r2.Ob(w.F, wl.inLoop, w.Table+": "+v.String(), "checksums XORed into the delta in one merge iteration")
+			o := r2.Ob(w.F, wl.anchor, w.Table+": "+v.String(), "checksums XORed into the delta in one merge iteration")
 			if out.paths == 0 {
 				o.Undecided("no successful path")
 				continue
@@ -86,8 +83,10 @@ func runC03(c *kit.Ctx) {
 		o := r9.Ob(w.F, w.Exec.Call, w.Table+": hashed fields bound unmodified", "time, type, key, text and value are bound from the unmodified fields of the point whose checksum entered the delta")
 		hashed := map[string]bool{"time": true, "type": true, "key": true, "text": true, "value": true}
 		pf := map[string]string{"type": "Type", "key": "Key", "time": "Time", "value": "Value", "text": "Text"}
-		if bad := boundArgsProblem(c, w, pf, hashed); bad != "" {
+		if bad, undec := boundArgsProblem(c, m, w, pf, hashed); bad != "" {
 			o.Violation("%s: the stored hash is computed from the incoming value, so it no longer equals the hash of the stored content", bad)
+		} else if undec != "" {
+			o.Undecided("%s", undec)
 		} else {
 			o.OK("five hashed columns bound from the queued point")
 		}
@@ -172,12 +171,17 @@ func newHashModel(c *kit.Ctx, m *storeModel) *hashModel {
 		if f.Decl == nil || f.Body == nil || txParamOf(f) == nil {
 			continue
 		}
-		hasMap := false
+		// the cache of new hash values (edge id -> hash) and the delta
+		hasMap, hasDelta := false, false
 		for _, p := range f.Params() {
-			if _, ok := p.Type().Underlying().(*types.Map); ok {
+			if mt, ok := p.Type().Underlying().(*types.Map); ok && isUint32(mt.Elem()) {
 				hasMap = true
 			}
+			if isUint32(p.Type()) {
+				hasDelta = true
+			}
 		}
+		hasMap = hasMap && hasDelta
 		self := false
 		for _, call := range f.AllCalls(false) {
 			if f.CalleeFunc(call) == f {
@@ -229,60 +233,102 @@ func c03Propagate(c *kit.Ctx, m *storeModel, hm *hashModel, r3, r6 *kit.Rule) {
 		f := w.F
 		info := f.Info()
 		wl := newWriterLoop(c, m, w)
-		o3 := r3.Ob(f, w.Commit, w.Table+": propagate before Commit", "every path from Begin to Commit calls a propagation entry exactly once with the accumulated delta, on the transaction, and the delta is not changed afterwards")
-		st := &kit.Std{F: f}
-		bad := ""
+		anchor3 := ast.Node(w.Exec.Call)
+		if w.Commit != nil {
+			anchor3 = w.Commit
+		}
+		o3 := r3.Ob(f, anchor3, w.Table+": propagate before Commit", "every path from Begin to Commit calls a propagation entry exactly once with the accumulated delta, on the transaction, and the delta is not changed afterwards")
+		// decided on values (wsym.go): on every successful path of an insert and of an
+		// overwrite the entry is called once, before Commit, and what it is handed is
+		// exactly the XOR of the checksums the merge accumulated (plus, for a new edge,
+		// terms the merge does not know)
+		bad, undec := "", ""
 		var propCall *ast.CallExpr
-		st.OnCall = func(call *ast.CallExpr, n ast.Node, s kit.S) []kit.S {
-			cf := f.CalleeFunc(call)
-			if cf != nil && hm.isEntry(cf) {
-				hasDelta := false
-				for _, a := range call.Args {
-					if kit.ObjOf(info, a) == wl.delta {
-						hasDelta = true
-					}
-				}
-				if !hasDelta {
-					bad = "the propagation call `" + f.Str(call) + "` does not pass the accumulated delta"
-				}
+		for _, call := range f.AllCalls(true) {
+			if cf := f.CalleeFunc(call); cf != nil && hm.isEntry(cf) {
 				propCall = call
-				switch s.Get("prop") {
-				case "":
-					return []kit.S{s.Set("prop", "1")}
-				default:
-					return []kit.S{s.Set("prop", "2+")}
+			}
+		}
+		if w.Body != f {
+			for _, call := range w.Body.AllCalls(true) {
+				if cf := w.Body.CalleeFunc(call); cf != nil && hm.isEntry(cf) {
+					propCall = call
 				}
 			}
-			if call == w.Commit {
-				switch s.Get("prop") {
-				case "":
+		}
+		nexits := 0
+		for _, v := range []mergeVal{{rows: 0}, {rows: 1, eqType: true, eqKey: true, order: "lt"}, {rows: 1, eqType: true, eqKey: true, order: "gt"}} {
+			out := wl.run(v)
+			c.AddValuations(1)
+			for _, pr := range out.props {
+				parts := strings.SplitN(pr, "|", 4)
+				if len(parts) != 4 {
+					continue
+				}
+				nexits++
+				switch {
+				case parts[2] == "1":
 					bad = "Commit is reachable without the delta having been propagated to the ancestors' hashes"
-				case "2+":
+				case parts[0] == "":
+					bad = "a successful path never calls a hash propagation entry"
+				case parts[0] != "1":
 					bad = "the delta can be propagated more than once before Commit (it would cancel out)"
 				}
-			}
-			return nil
-		}
-		st.OnNode = func(n ast.Node, s kit.S) []kit.S {
-			if as, ok := n.(*ast.AssignStmt); ok && s.Get("prop") != "" {
-				for _, l := range as.Lhs {
-					if kit.ObjOf(info, l) == wl.delta {
-						bad = "the delta is modified at " + f.At(as) + " after it was propagated"
+				// parity of the terms handed over vs. accumulated
+				want := map[string]int{}
+				for _, x := range strings.Split(parts[3], "+") {
+					if x != "" {
+						want[x]++
+					}
+				}
+				got := map[string]int{}
+				unknownTerm := false
+				for _, t := range strings.Split(parts[1], ",") {
+					switch {
+					case t == "":
+					case t == "CRC(IN)":
+						got["x:in"]++
+					case strings.HasPrefix(t, "CRC(DB#"):
+						got["x:db"]++
+					default:
+						unknownTerm = true
+					}
+				}
+				for _, k := range []string{"x:in", "x:db"} {
+					if want[k]%2 != got[k]%2 {
+						if parts[1] == "?" || (unknownTerm && want["x:other"] > 0) {
+							undec = "the value handed to the propagation entry cannot be traced to the checksums the merge accumulated"
+						} else if bad == "" {
+							bad = "the value handed to the propagation entry is not the accumulated delta (" + v.String() + ": accumulated {" + parts[3] + "}, handed over {" + parts[1] + "})"
+						}
 					}
 				}
 			}
-			return []kit.S{s}
 		}
-		res := c.P.Graph(f).Run(kit.NewS(), st.Client())
-		if res.Overflow {
-			c.Fatalf("R3 overflow")
+		if bad == "" && undec != "" && wl.delta != nil && propCall != nil {
+			// the accumulated delta is a known local: an entry call that does not mention it hands over something else
+			mentions := false
+			for _, a := range propCall.Args {
+				ast.Inspect(a, func(n ast.Node) bool {
+					if id, ok := n.(*ast.Ident); ok && kit.ObjOf(info, id) == wl.delta {
+						mentions = true
+					}
+					return true
+				})
+			}
+			if !mentions {
+				bad = "the propagation call `" + f.Str(propCall) + "` does not pass the accumulated delta"
+			}
 		}
-		if bad != "" {
+		switch {
+		case bad != "":
 			o3.Violation("%s", bad)
-		} else if propCall == nil {
-			o3.Violation("the writer never calls a hash propagation entry")
-		} else {
-			o3.OK("`%s` exactly once on every committing path", f.Str(propCall))
+		case nexits == 0:
+			o3.Undecided("no successful path in the symbolic evaluation")
+		case undec != "":
+			o3.Undecided("%s", undec)
+		default:
+			o3.OK("one entry call before Commit on every successful path, handed exactly the accumulated checksums")
 		}
 		// R6 scope
 		o6 := r6.Ob(f, propCall, w.Table+": delta scope", map[string]string{
@@ -676,6 +722,17 @@ func c03NewEdge(c *kit.Ctx, m *storeModel, hm *hashModel, r5 *kit.Rule) {
 	f := w.F
 	info := f.Info()
 	wl := newWriterLoop(c, m, w)
+	if wl.delta == nil {
+		// the delta variable is found by evaluating the writer once (wsym.go)
+		wl.run(mergeVal{rows: 0})
+	}
+	if wl.delta == nil {
+		for _, nm := range []string{"existing node points", "existing child edge hashes"} {
+			r5.Ob(f, nil, "new edge folds "+nm, "on every path that inserts an edge, "+nm+" of the node are XORed into the delta (one XOR per row) before propagation").
+				Undecided("the hash delta of %s is not accumulated in a local variable of the writer (not followed)", f.Name)
+		}
+		return
+	}
 	// node id parameter: bound to column down of INSERT INTO edges
 	var node *types.Var
 	for _, s := range m.sql.Sites {
